@@ -208,7 +208,8 @@ ARG_OPS = [((1, 2), {}), ((3,), {}), ((-1, 7), {}), ((), {'b': 5}), ((), {}), ((
 
 
 def arg_program():
-    return {'tns': TNS, 'classes': [], 'services': [{'n': 'S', 'methods': [{'n': 'pair', 'args': [['a', I], ['b', I]], 'ret': U}]}]}
+    # (the second parameter declares a default: a call that leaves it out runs with the default, however it travels)
+    return {'tns': TNS, 'classes': [], 'services': [{'n': 'S', 'methods': [{'n': 'pair', 'args': [['a', I], ['b', ['p', 'Integer', {'default': 9}]]], 'ret': U}]}]}
 
 
 def _pair_fn(ctx, a, b):
